@@ -40,6 +40,12 @@ CHECKS = {
     text="Generated fns/modules declaring 0..4 dependency bounds in every syntactic form (inline, where, impl A + B, split, spread over module fns), by reference or by value, crossed with mock settings and both feature settings; for each, a family of probe types (all bounds, exactly one bound missing, unrelated extra trait, !Sync, Sync+!Send), bare and inside Impl<..>, is probed at run time and compared with `declared subset of traits(P) and Sync and (Send if by value)`, bare types only when not mockable. 2x400 programs (about 10 probes each) quick / 2x6000 thorough.",
     note="`'static` is not probed (selection ignores lifetimes). A program whose generated impl fails to type-check while its attribute-free twin compiles is reported as a dropped bound. Mock derivations stay un-exported here.",
     design="§2 C04"),
+ "C06": dict(
+    technique="property-based differential testing of compiled clients: recording provider called directly vs through Impl<App>, for the three delegation selectors; run-time availability probes",
+    engine="E2",
+    text="Generated traits (1..5 &self methods with repeated signatures, adjacent equal types, generic trait/method parameters, supertraits, wildcard parameters, &mut arguments, sync/async with and without async_trait) crossed with the selectors default/Self/ref/Borrow; each method is called on a recording provider and through Impl<App> with distinct values, comparing results, one-entry traces (method tag, provider address, arguments) and &mut arguments; probes assert Impl<App>: Tr, not Impl<NoProvider>, not Impl<!Sync app>. 400 programs quick / 5000 thorough. A program that fails to compile while its attribute-free twin compiles is a violation.",
+    note="Don't-care: whether async + ref additionally needs T: Send. The provider call is the reference semantics.",
+    design="§2 C06"),
  "C08": dict(
     technique="property-based testing: generated modules with decoy items, generator-side ground truth for the method list, syn-parsed trait of the expansion as observation",
     engine="E1",
